@@ -157,7 +157,7 @@ def check(case):
         if g != d['t']:
             problems.append(Problem('not-verbatim', f'malformed cell {d["t"]!r} ({d["kind"]}, {d["typ"]}, line {phys[ri]}) is imported/exported as {g!r}'
                                     f' (error reported: {reported})\n{text2}',
-                                    {'t': d['t'], 'got': g, 'reported': reported, 'kind': d['kind'], 'typ': d['typ']}))
+                                    {'t': d['t'], 'got': g, 'reported': reported, 'kind': 'trail' if d['kind'] == 'mutated' else d['kind'], 'typ': d['typ']}))
         elif d['typ'] in KERNLIKE and not d['strict'] and not reported:
             problems.append(Problem('missing-error', f'no error for {d["t"]!r}', {'missing': [(phys[ri], d['t'])]}))
         elif d['typ'] not in KERNLIKE and tok.category.name not in (G.OWN_CAT.get(d['typ'], 'OTHER'),):
